@@ -34,7 +34,9 @@ type visitor struct {
 func (v *visitor) Evaluate(tree antlr.ParseTree) (result any, err error) {
 	defer func() {
 		if x := recover(); x != nil {
-			err = errors.Errorf("recovered from panic: %v", x)
+			if err = v.GetError(); err == nil { // 已有错误时保留原因
+				err = errors.Errorf("recovered from panic: %v", x)
+			}
 		}
 	}()
 	return tree.Accept(v), v.GetError()
@@ -46,6 +48,9 @@ func (v *visitor) GetError() error {
 }
 
 func (v *visitor) SetError(ctx antlr.ParserRuleContext, format string, args ...any) any {
+	if v.error != nil {
+		return nil // 保留最先发生的错误(原因), 后续因 nil 操作数产生的错误不覆盖它
+	}
 	start := ctx.GetStart()
 	stop := ctx.GetStop()
 	line, column := start.GetLine(), start.GetColumn()
@@ -64,6 +69,9 @@ func (v *visitor) SetError(ctx antlr.ParserRuleContext, format string, args ...a
 }
 
 func (v *visitor) SetErrorOnToken(token antlr.Token, format string, args ...any) any {
+	if v.error != nil {
+		return nil // 保留最先发生的错误
+	}
 	v.error = errors.Errorf("evaluate code failed at position %v: %w",
 		v.Pos.Add(token.GetLine(), token.GetColumn()),
 		errors.Errorf(format, args...),
